@@ -19,7 +19,7 @@ THEOREM_MODULES = ["Yarel.Props.C04", "Yarel.Props.OpcodeTable", "Yarel.Props.Mo
 REQUIRED_THEOREMS = ["verify_sound", "checkAnnot_sound", "verify_unique_height", "verify_progress", "opcode_table_agrees"]
 # the state the models abstract is all the state there is: the fields of the run-time structures, regenerated on every run, are the ones
 # the models were written against (Props/StateInventory)
-THEOREM_MODULES.append("Yarel.Props.StateInventory")
+THEOREM_MODULES.append("Yarel.Props.StateInventory.state_of_compiler")
 REQUIRED_THEOREMS += ['state_of_compiler']
 USES_GEN = True
 LEVEL = "proof"
